@@ -685,66 +685,13 @@ func firstIf(b *ast.BlockStmt) (*ast.IfStmt, bool) {
 	return i, ok
 }
 
-// ---- C15.R8 (encoder side) shadowed fields are pruned at every embedding depth ----
-
-// When a struct declares a key that an embedded struct also has, the embedded one is hidden.
-// structCode prunes the embedded struct with removeFieldsByTags(tags of the outer struct); for the
-// "shallowest wins" rule to hold two or more levels down, removeFieldsByTags has to visit the
-// anonymous struct fields of the struct it prunes with the same tags (a recursive call under an
-// isAnonymous test), and drop by tags.ExistsKey.
-func c15r8(rc *core.RC) {
-	p := rc.P
-	fd := p.Func("encoder", "StructCode.removeFieldsByTags")
-	key := "encoder.(*StructCode).removeFieldsByTags/nested-embedded"
-	if fd == nil {
-		rc.Unknown(key, token.NoPos, "not found")
-		return
-	}
-	rc.Touch("encoder.(*StructCode).removeFieldsByTags")
-	info := p.Info(fd)
-	self, _ := info.Defs[fd.Name].(*types.Func)
-	var tagsParam types.Object
-	for _, f := range fd.Type.Params.List {
-		for _, nm := range f.Names {
-			tagsParam = info.Defs[nm]
-		}
-	}
-	recursive, drops := false, false
-	ast.Inspect(fd.Body, func(m ast.Node) bool {
-		switch x := m.(type) {
-		case *ast.IfStmt:
-			if !strings.Contains(core.Src(p.Fset, x.Cond), "isAnonymous") {
-				return true
-			}
-			ast.Inspect(x.Body, func(k ast.Node) bool {
-				if c, ok := k.(*ast.CallExpr); ok && core.Callee(info, c) == self && len(c.Args) == 1 && core.ObjOf(info, c.Args[0]) == tagsParam {
-					recursive = true
-				}
-				return true
-			})
-		case *ast.CallExpr:
-			if sel, ok := x.Fun.(*ast.SelectorExpr); ok && sel.Sel.Name == "ExistsKey" && core.ObjOf(info, sel.X) == tagsParam {
-				drops = true
-			}
-		}
-		return true
-	})
-	rc.Check(recursive, key, fd.Pos(), "anonymous struct fields of the pruned struct are pruned with the same tags (recursive call under an isAnonymous test): a key declared by the outer struct hides the same key at every embedding depth")
-	rc.Check(drops, "encoder.(*StructCode).removeFieldsByTags/drops-by-key", fd.Pos(), "fields whose key exists among the outer struct's tags are dropped")
-	// and the compiler applies it to every anonymous field
-	sc := p.Func("encoder", "Compiler.structCode")
-	applied := false
-	if sc != nil {
-		sinfo := p.Info(sc)
-		ast.Inspect(sc.Body, func(m ast.Node) bool {
-			if c, ok := m.(*ast.CallExpr); ok && core.Callee(sinfo, c) == self {
-				applied = true
-			}
-			return true
-		})
-	}
-	rc.Check(applied, "encoder.(*Compiler).structCode/prunes-embedded", token.NoPos, "structCode prunes each embedded struct with the outer struct's tags")
-}
+// ---- C15.R8 (retired) ----
+//
+// C15.R8 required (*StructCode).removeFieldsByTags to recurse into nested embedded structs. Since fix d6053e1 the
+// shallowest-depth rule is decided by getDuplicatedFieldMap from the depth each promoted field carries, and the
+// pruning by tags became redundant: the seeded change the rule was written for (C15-encoder-shadowing-not-pruned-
+// below-depth-1) no longer changes any output. A rule that alarms on a change that leaves the behaviour as it is must
+// not stay: it was removed, and the change is now one of the benign edits every rule has to be silent on.
 
 // ---- C15.R9 the key length of a field set is the byte length of its key ----
 
@@ -1504,7 +1451,7 @@ func c15r16(rc *core.RC) {
 		return true
 	})
 	if n < 1 {
-		rc.Unknown("encoder.(*Compiler).structCode/hiding-names", token.NoPos, "no removeFieldsByTags call found in structCode")
+		rc.OK("encoder.(*Compiler).structCode/hiding-names", fd.Pos(), "structCode does not prune embedded structs by the outer struct's tags at all: which same-named member wins is decided by embedding depth (C15.R12, C15.R18)")
 	}
 }
 
